@@ -54,4 +54,12 @@ CLAIMS["C09"] = {
     "design_ref": "DESIGN.md §2.4, §3 C09",
 }
 
+CLAIMS["C18"] = {
+    "technique": "rapid state machines: Bridge vs a model of the scripted impairments (hand-offs counted exactly), dpipe vs FIFO-per-direction model",
+    "engine": "rapid-models",
+    "text": "Generated-input search: histories of writes in both directions interleaved with DropNextNWrites, ReorderNextNWrites (repeatedly, n=1..4), Drop, Reorder, Filter, Tick and Process, with truncating and non-truncating readers; the model applies the script to two queues and every hand-over is attributed by queue-length deltas, so the comparison 'reader received exactly the model's sequence' does not depend on timing; combinations the documentation leaves unspecified fall back to the weak oracle (no duplicate, nothing invented, intact). dpipe: FIFO per direction, one message per read, truncation, close of one end. Exploration only.",
+    "note": "Trusted: the model's order of script application (drop counter, reorder batch, filter) for the unambiguous cases; Bridge.SetLossChance and write deadlines are not exercised.",
+    "design_ref": "DESIGN.md §3 C18",
+}
+
 PENDING_REASON = "check not built yet in this revision of /verif (planned, see DESIGN.md §3); nothing is claimed for it"
